@@ -48,6 +48,18 @@ B = [
                                                     "    for node in nx.lexicographical_topological_sort(g):")]),
  ("copy-deepcopies-graph", "C19,C06", [("circuitgraph/circuit.py", "graph=self.graph.copy(), name=self.name, blackboxes=self.blackboxes.copy()",
                                           "graph=self.graph.copy(), name=str(self.name), blackboxes=dict(self.blackboxes)")]),
+ ("is-output-get", "C19,C16", [("circuitgraph/circuit.py",
+    '            try:\n                return self.graph.nodes[node]["output"]\n            except KeyError:\n                return False',
+    '            return self.graph.nodes[node].get("output", False)')]),
+ ("strip-ignore-pins-as-set", "C06,C09", [("circuitgraph/tx.py",
+    "    elif isinstance(ignore_pins, str):\n        ignore_pins = [ignore_pins]\n    g = c.graph.copy()",
+    "    elif isinstance(ignore_pins, str):\n        ignore_pins = {ignore_pins}\n    else:\n        ignore_pins = set(ignore_pins)\n    g = c.graph.copy()")]),
+ ("cnf-self-fed-buf-emits-nothing-new", "C01,C08", [("circuitgraph/sat.py",
+    '        elif n_type in ["buf", "bb_input"]:\n            if c.fanin(n):\n                f = c.fanin(n).pop()\n                formula.append([variables.id(n), -variables.id(f)])\n                formula.append([-variables.id(n), variables.id(f)])',
+    '        elif n_type in ["buf", "bb_input"]:\n            if c.fanin(n):\n                f = c.fanin(n).pop()\n                formula.append([variables.id(n), -variables.id(f)])\n                if f != n:\n                    formula.append([-variables.id(n), variables.id(f)])')]),
+ ("add-subcircuit-overlaps-collected", "C07,C06", [("circuitgraph/circuit.py",
+    '        mapping = {}\n        for n in sc:\n            if f"{name}_{n}" in self.graph.nodes:\n                raise ValueError(f"name {n} overlaps with {name} subcircuit.")\n            mapping[n] = f"{name}_{n}"',
+    '        mapping = {n: f"{name}_{n}" for n in sc}\n        overlap = sorted(n for n, m in mapping.items() if m in self.graph.nodes)\n        if overlap:\n            raise ValueError(f"names {overlap} overlap with {name} subcircuit.")')]),
  ("unroll-extra-io-buffers-kept", "C09", [("circuitgraph/tx.py", 'def unroll(c, n, state_io, prefix="cg_unroll"):', 'def unroll(c, n, state_io, prefix="cg_unroll", _unused=None):')]),
 ]
 
